@@ -1,7 +1,7 @@
 #!/bin/bash
-# usage: vf/ingest.sh C07 1   -> copies /tmp/wt/C07/_seed/1 to seeded/C07_1, verifies and runs detection
+# usage: vf/ingest.sh C07 1 [DSTK]  -> copies /tmp/wt/C07/_seed/1 to seeded/C07_<DSTK or 1>, verifies and runs detection
 set -e
-P=$1; K=$2; SRC=/tmp/wt/$P/_seed/$K; DST=/verif/seeded/${P}_$K
+P=$1; K=$2; D=${3:-$2}; SRC=/tmp/wt/$P/_seed/$K; DST=/verif/seeded/${P}_$D
 mkdir -p $DST
 cp $SRC/patch.diff $SRC/demo.py $DST/
 [ -f $SRC/note.md ] && cp $SRC/note.md $DST/
@@ -13,4 +13,4 @@ json.dump(m,open(os.path.join(d,"meta.json"),"w"),indent=1)
 PY
 cd /verif
 /venv/bin/python -m vf.seedtool verify $DST | tail -12
-/venv/bin/python -m vf.seedtool detect $DST $P ${@:3} | tail -25
+/venv/bin/python -m vf.seedtool detect $DST $P | tail -25
